@@ -253,7 +253,7 @@ fn pat_for(name: &str) -> Option<Pat> {
 pub fn c14(tier: Tier) -> i32 {
     util::quiet();
     let mut run = Run::new("C14", if tier == Tier::Quick { "quick" } else { "thorough" });
-    let doc = documented("/repo");
+    let doc = documented(&crate::ev::repo_home());
     if doc.optimizations.len() < 20 || doc.vulnerabilities.len() < 4 || doc.qa.len() < 3 {
         run.machinery(format!("could not parse the documented names ({} / {} / {})", doc.optimizations.len(), doc.vulnerabilities.len(), doc.qa.len()));
     }
